@@ -2,6 +2,7 @@
 import asyncio
 import itertools
 
+from vf import engine_p
 from vf import execharness as H
 from vf.report import MachineryDefect, Run
 
@@ -242,5 +243,6 @@ def check(tier, seed):
                                          "bound": "%d streams" % n})
     run.sample({"selection": SELECTIONS[1], "events": ["ok", "nested", "bad"], "contract": "k-th result == executing the selection on the k-th event; its errors only"})
     run.assume("a consumer that does not await each __anext__ before the next (concurrent pulls) is outside this check")
-    return run.finish("other", "bounded stand-in: per-event contract against the reference executor over enumerated event sequences and failure patterns; refusal cases",
+    engine_p.run(run, 'C17')
+    return run.finish("other", "trace contracts over every syntactic path of the real function (Engine P, unbounded in the inputs, values abstracted) + bounded stand-in: per-event contract against the reference executor over enumerated event sequences and failure patterns; refusal cases",
                       checker_cmd="./check C17 --tier %s" % tier)
